@@ -19,7 +19,7 @@ THEOREMS = ['C10_idempotent', 'C10_ascii_clean', 'C10_canonical', 'C10_idempoten
             'C10_upper_pe_idempotent', 'C10_upper_pe_escapes_upper',
             'C10_percent_encode_ascii_clean', 'C10_percent_encode_fixpoint',
             'C10_equiv_scheme_case_partial', 'C10_equiv_default_port_partial', 'C10_equiv_host_case_partial',
-            'C10_equiv_dot_segments_partial', 'C10_equiv_escape_case_partial', 'C10_equiv_fragment_partial',
+            'C10_equiv_dot_segments_partial', 'C10_equiv_escape_case_partial', 'C10_equiv_fragment_partial', 'C10_equiv_ipv4_partial',
             'C10_constants_are_the_sources']
 TRUSTED = [
     'harness/translate/consts.py (fail-closed AST evaluator of constant definitions) -> coq/Gen/Consts.v, regenerated every run; Proofs/ConstsAgree.v proves the model\'s constants equal to it for every value',
@@ -814,8 +814,9 @@ LEVEL_TEXT = ('Coq theorems over the executable model of wpull/url.py, for ALL i
               'segments at the level of the component normalizer; the letter case of the hex digits of escapes at the level of '
               'percent_encode + uppercase_percent_encoding for the path, query and fragment encode sets (every byte string, escapes as the '
               'scanner delimits them); a dropped fragment at the level of parse_network for arbitrary text (C10_equiv_fragment_partial). '
-              'IPv4/IPv6 re-spelling is '
-              'NOT a theorem: it is checked on the '
+              'IPv4 notation only in the form "the normalized address is a function of the 32-bit value" (C10_equiv_ipv4_partial; that the '
+              'host parser reaches that function for every spelling, and IPv6 re-spelling - a library oracle -, are '
+              'NOT theorems: they are checked on the '
               'implementation for every generated URL (variants). The model is tied to the code on every run by evaluating it inside '
               'Coq against URLInfo.parse and all accessors.')
 LEVEL_NOTE = ('The model is a pure function of the string; that the implementation is one too although URLInfo.parse is memoised and its results are '
